@@ -420,6 +420,7 @@ pub fn run_script_with<Ef: LabEffect>(ctx: Ctx<Ef>, script: Script, tx: Option<T
                 }
                 Instr::Yield { n, drop_waker } => YieldN { n, drop_waker }.await,
                 Instr::Hold { counter } => holds.push(HoldGuard::new(counter)),
+                Instr::Abandon { site } => drop(ctx.request(op(site, 0, KIND_ONCE))),
                 Instr::JoinAllUnordered { sites } => {
                     let mut fu = FuturesUnordered::new();
                     for s in &sites {
